@@ -65,7 +65,9 @@ void resume(suspend_point_type* sp) {
     #endif
         }
         // Do not access target after that point.
-        a.advertise_new_work<arena::wakeup>();
+        // Like an enqueued task, the resume task can only be taken by a thread inside the arena, and all of them may
+        // have left while the task was suspended: ask for mandatory concurrency as well.
+        a.advertise_new_work<arena::work_enqueued>();
         // Release our reference to my_arena.
         a.on_thread_leaving(arena::ref_worker);
     }
